@@ -210,7 +210,7 @@ func ruleTreePrinters(c *core.Ctx, rule string) {
 				return x.Fresh(s, "recerr"), true
 			case isMethod(callee, core.LibPath, "TreeNode", "Keys"):
 				return absint.Sym{Name: "keys"}, true
-			case callee != nil && core.FnPkgPath(callee) == balancePkg && callee != fn && callee.Signature.Results().Len() == 1 && !isErrorType(callee.Signature.Results().At(0).Type()):
+			case callee != nil && core.FnPkgPath(callee) == balancePkg && callee != fn && callee.Signature.Results().Len() == 1 && isSliceType(callee.Signature.Results().At(0).Type()) && len(callee.Params) == 1:
 				// a helper that computes the joined path of a chain (getJump): opaque list
 				return x.Fresh(s, "jump"), true
 			case callee != nil && strings.HasPrefix(callee.String(), "fmt.Fprint"):
@@ -475,4 +475,9 @@ func init() {
 			ruleGrandTotal(c, "C03-R7")
 		},
 	})
+}
+
+func isSliceType(t types.Type) bool {
+	_, ok := t.Underlying().(*types.Slice)
+	return ok
 }
